@@ -52,12 +52,13 @@ def model_check(prop, tier, extra_cfg=""):
 
 
 def key_c12(rec):
+    """Names the input class of a rejected stream: its items (kind/code/length class/body class/aux/variant) and how it ended."""
     e = rec["e"]
-    it = e["it"]
-    var = (rec.get("info") or {}).get("var", "")
-    return "item=%s code=%d len=%s body=%s aux=%s var=%s rel=%s nrep=%d post=%s big=%s pan=%s" % (
-        it["k"], it["code"], it["len"], it["body"], it["aux"], var, str(e["rel"]).lower(), e["nrep"], rec["post"]["st"],
-        str(e["big"]).lower(), str(e["pan"]).lower())
+    vs = (rec.get("info") or {}).get("vars") or [""] * len(e["items"])
+    toks = []
+    for it, v in zip(e["items"], vs):
+        toks.append("%s/%d/%s/%s/%s/%s" % (it["k"], it["code"], it["len"], it["body"], it["aux"], v))
+    return "stream=%s nrep=%d post=%s big=%s pan=%s" % (",".join(toks), e["nrep"], rec["post"]["st"], str(e["big"]).lower(), str(e["pan"]).lower())
 
 
 def key_c13(rec):
@@ -106,7 +107,10 @@ def judge(prop, verdict, traces, label, drift):
             rp = vlib.save_replay(prop, "%s_%s.ndjson" % (label, rec["tid"]), ts[ti])
         if first or len(verdict.violations) < 25:
             text = "step %d of trace %s (and %d identical traces) is not a step %s allows: %s" % (
-                li, rec["tid"], mult[ti] - 1, fml, json.dumps(rec["e"]) if prop == "C12" else why_c13(rec["e"]))
+                li, rec["tid"], mult[ti] - 1, fml,
+                ("%d response frames %s, service ended '%s' (%s), responses while each item was current %s" % (
+                    rec["e"]["nrep"], (rec.get("info") or {}).get("replies"), rec["post"]["st"], (rec.get("info") or {}).get("ret"),
+                    (rec.get("info") or {}).get("attributed"))) if prop == "C12" else why_c13(rec["e"]))
             verdict.violation(k, text, rp)
     for (ti, li) in rejected["Strict"]:
         if (ti, li) not in rejected[fml]:
@@ -169,10 +173,10 @@ def run(prop, tier):
                "streams_over_net_pipe": st.get("streams_pipe", 0), "random_streams": plan["random"],
                "evaluations": st.get("steps", 0), "distinct_nontrivial": st.get("distinct_labels", 0),
                "message_codes_exercised": st.get("codes_seen", 0), "panics_observed": st.get("panics", 0),
-               "rule": "every stream of <= 3 items of the bounded model is instantiated with concrete bytes and served by the real ServeAgent; every code 0..255 in every frame shape; random/grammar streams; every recorded step (item, responses attributed to it, state after) is judged by TLC with C12_Step (distinct_nontrivial = distinct (item class, responses, state change) labels observed)",
+               "rule": "every stream of <= 3 items of the bounded model is instantiated with concrete bytes and served by the real ServeAgent; every code 0..255 in every frame shape; random/grammar streams; every served stream (items, number of response frames, end status, panic, allocation) is judged by TLC with C12_Stream, the set of outcomes the statement allows for that item list, independent of how the server reads its input (distinct_nontrivial = distinct (item class, responses while current, end) labels observed; evaluations = items served)",
                "spec_drift": len(drift), "zero_coverage_actions": r.coverage_zero, "model_cfgs": [cfg]}
         assumptions = ["the underlying agent is x/crypto's keyring behind the harness frame proxy on a unix socket; it answers every forwarded request unless the harness makes it close the connection",
-                       "a response is attributed to the last item whose first byte the server had asked for when the response's first byte was written (the server does not read ahead)",
+                       "only the number of response frames and the end status are judged (responses are not attributed to requests: a server may read ahead); order is therefore checked as a count per stream prefix, not by response content",
                        "allocation is runtime.MemStats.TotalAlloc around the ServeAgent call, measured with no other stream running; 'allocates for the frame' means >= 1 MiB"]
     else:
         cov, assumptions = run_c13(prop, tier, binp, verdict, drift)
